@@ -9,6 +9,12 @@ if os.path.exists(D + "/results.txt"):
     for l in open(D + "/results.txt"):
         p = l.split()
         res[p[0]] = p[1]
+for extra in ("/verif/run/sel2.log", "/verif/run/rerun2.log"):
+    if os.path.exists(extra):
+        for l in open(extra):
+            p = l.split()
+            if len(p) >= 3 and p[2] == "exit=1":
+                res[p[0]] = "DETECTED(%s)" % p[1]
 if os.path.exists("/verif/run/sel.log"):
     for l in open("/verif/run/sel.log"):
         p = l.split()
@@ -30,6 +36,42 @@ NOTES = {
     "0924": "as 0919",
     "0604": "equivalent: p[:n] with len(p) == n",
     "0525": "equivalent: a 257-byte hijacked reader is wrapped instead of reused; both paths lose nothing (C17)",
+    "0524": "equivalent: the hijacked reader is never reused; the wrap path loses nothing either (C17)",
+    "0126": "no property: timer.Stop() only releases the timer earlier",
+    "0166": "equivalent: the next beginMessage closes the stale writer again, which only returns errWriteClosed (ignored)",
+    "0204": "no property: the 'concurrent write' panic guards against misuse the contract excludes",
+    "0214": "equivalent for the properties: the buffer is flushed one byte early; flush points are free (C02)",
+    "0220": "equivalent: copying max bytes either way",
+    "0218": "io.Writer detail (n returned together with an error) that no listed property constrains",
+    "0239": "as 0218", "0250": "as 0218", "0256": "as 0218",
+    "0227": "equivalent for the properties: direct-write threshold moved by one byte; framing stays valid",
+    "0229": "equivalent for the properties: more writes take the direct path; framing stays valid",
+    "0370": "equivalent: io.CopyN of zero bytes",
+    "0391": "equivalent: no protocol error text is long enough for the truncation to matter (longest joined text is about 100 bytes)",
+    "0396": "equivalent for the properties: a stale reader still delivers nothing (operation RDO)",
+    "0397": "as 0396",
+    "0398": "equivalent since fix 85a08ab: readLength is reset at the first frame of every message",
+    "0412": "the documented panic comes one call later; the specification admits the panic from the 1000th failed call on, it does not demand it",
+    "0413": "as 0412",
+    "0424": "equivalent: len(b) == readRemaining reads the same bytes",
+    "0447": "unreachable on conformant and on violating streams (advanceFrame rejects the frame first)",
+    "0503": "error text only", "0509": "error text only",
+    "0515": "compression is never negotiated: allowed ('only if'), both endpoints still agree (C15)",
+    "0533": "buffer reuse of the hijacked writer: not observable through the properties", "0534": "as 0533", "0540": "as 0533",
+    "0548": "as 0533", "0549": "as 0533", "0550": "as 0533",
+    "0584": "a handshake timeout of one nanosecond", "0589": "as 0584", "0590": "as 0584",
+    "0596": "deprecated package-level Upgrade only", "0619": "Dial on a nil *Dialer only",
+    "0678": "equivalent: SetDeadline with the zero time / re-arming the same deadline",
+    "0712": "httptrace callback only", "0720": "error text for NextProtos misconfiguration only", "0721": "as 0720", "0722": "as 0720", "0723": "as 0720",
+    "0726": "equivalent: SetCookies with an empty list",
+    "0742": "resp.Body of a SUCCESSFUL dial is not mentioned by any property",
+    "0815": "no property: response body of the CONNECT reply is not closed",
+    "0819": "equivalent: a status line without reason phrase is refused either way", "0820": "as 0819", "0824": "error text only",
+    "0933": "equivalent: an exhausted string decodes to RuneError width 0, the comparison still fails exactly when the lengths differ",
+    "1007": "performance only: the prepared frame is rebuilt on every send",
+    "1014": "performance only: a fresh inflater per message", "1015": "dead code: the pool's New function never returns nil",
+    "1041": "performance only: deflaters are not recycled",
+    "1058": "performance only: inflaters are not recycled", "1059": "as 1058",
 }
 surv = sorted(k for k, m in metas.items() if m.get("filter") == "survived")
 out = []
